@@ -214,6 +214,13 @@ def run(chk, repo, tier):
     chk.clause('C02-g', 'exactly zero outside the evaluated window: fields are inserted into zeros and nothing else is added', 4)
     chk.clause('C02-h', 'axis-swap equivariance of the extent helpers', 10)
     chk.clause('C02-i', 'the un-masked output window is centred', 2)
+    chk.clause('C02-p', 'the fields that reach the transform are placed correctly: products keep offsets (mirror-image scalar cases), '
+                        'tilt lists are never shared between wavefronts, inserts add the clipped field at floor(n/2) + offset', 10)
+    from .c06 import product_rules, insert_rules
+    from . import common as _common
+    product_rules(chk, repo, 'C02-p')
+    insert_rules(chk, repo, 'C02-p')
+    _common.mul_concat(chk, repo, 'C02-p')
     chk.clause('C02-k', 'the transform the propagator calls evaluates the Fraunhofer kernel: phase -2*pi*i*alpha*(u - shift)(x + offset) '
                         'per axis with origins at floor(n/2), unitary gain', 8)
     from .common import Remap
